@@ -32,7 +32,7 @@ use mmtk::util::Address;
 use serde_json::{json, Value};
 use std::sync::atomic::Ordering;
 
-const RULE: &str = "per plan (11; fixed 8 MiB heap, 1 GC worker): heap pre-state {empty (after drop-all + full GC) | full of garbage | full of live data (rooted lists), filled with collections disabled until the plan reports collection_required} x request, request = (semantics, size) in {Default 64 B; Los, Immortal x {64 B, 1 MiB, heap-1 page, heap+1 page, usize::MAX/2 & !7, the largest size the allocator documents as legal}; NonMoving 64 B (plans where live/dead NonMoving objects are not a recorded defect); NoGC and PageProtect (no non-LOS limit): Default x all sizes; NoGC: empty pre-state only, no heap-1 page} x all 8 AllocationOptions {allow_overcommit, at_safepoint, allow_oom_call}; plus ordered pairs of requests: thorough: every first request x every second request with one of the 4 core option combinations on the garbage-full heap (MarkCompact, PageProtect: every first request x 2 probe requests {Default 64 B with default options; Los 1 MiB at a safepoint without the out_of_memory call}) and first x 2 probes on the empty heap; quick: first (4 core option combinations {safepoint without OOM call, default, no safepoint with OOM call, over-committing default}) x 2 probes on the garbage-full heap of SemiSpace, GenImmix, MarkSweep, Immix, and only the 4 core option combinations on the heap full of live data (PageProtect: on both full heaps, without Default above 64 B). Each execution starts from drop-all + forced full GC and a rebuilt pre-state, and its requests are made by a freshly bound second mutator (no thread-local buffer: even 64 B must be acquired from the space); the process is replaced by a fresh one when never-reclaimed memory (Immortal allocations and their 32 KiB buffers; measured as the growth of the reserved pages of the collected empty heap) exceeds 2 MiB. Monitors over the upcall log of each request: out_of_memory only if allow_oom_call; out_of_memory only after >= 1 completed collection within the request unless the request exceeds the heap size; a request that exceeds the heap size returns null without block_for_gc; null after out_of_memory; no block_for_gc if !at_safepoint; on the pre-states empty / full of garbage a request of <= heap/8 made at a safepoint succeeds without out_of_memory (it can be satisfied by collecting); allow_overcommit with size <= heap/4 (address space cannot be what runs out: MMTk reserves 2 x heap per space): no block_for_gc, no out_of_memory, and per (plan, full pre-state) at least one such request succeeds beyond the heap budget; the call returns (watchdog: 30 s of CPU time without progress inside the call; block_for_gc without a collection is a hang). distinct_nontrivial = executions in which a request could not be satisfied from the current heap (it polled for a collection, blocked, failed or over-committed)";
+const RULE: &str = "per plan (11; fixed 8 MiB heap, 1 GC worker): heap pre-state {empty (after drop-all + full GC) | full of garbage | full of live data (rooted lists), filled with collections disabled until the plan reports collection_required} x request, request = (semantics, size) in {Default 64 B; Los, Immortal x {64 B, 1 MiB, heap-1 page, heap+1 page, usize::MAX/2 & !7, the largest size the allocator documents as legal}; NonMoving 64 B (plans where live/dead NonMoving objects are not a recorded defect); NoGC and PageProtect (no non-LOS limit): Default x all sizes; NoGC: empty pre-state only, no heap-1 page} x all 8 AllocationOptions {allow_overcommit, at_safepoint, allow_oom_call}; plus ordered pairs of requests: thorough: every first request x every second request with one of the 4 core option combinations on the garbage-full heap (MarkCompact, PageProtect: every first request x 2 probe requests {Default 64 B with default options; Los 1 MiB at a safepoint without the out_of_memory call}) and first x 2 probes on the empty heap; quick: first (4 core option combinations {safepoint without OOM call, default, no safepoint with OOM call, over-committing default}) x 2 probes on the garbage-full heap of SemiSpace, GenImmix, MarkSweep, Immix, and only the 4 core option combinations on the heap full of live data (PageProtect: on both full heaps, without Default above 64 B). Each execution starts from drop-all + forced full GC and a rebuilt pre-state, and its requests are made by a freshly bound second mutator (no thread-local buffer: even 64 B must be acquired from the space); the process is replaced by a fresh one when never-reclaimed memory (Immortal allocations and their 32 KiB buffers; measured as the growth of the reserved pages of the collected empty heap) exceeds 2 MiB. In addition, per collecting plan except ConcurrentImmix, a process booted with gc_trigger=DynamicHeapSize:4 MiB,16 MiB: Los requests of {5 MiB, 12 MiB, 16 MiB - 1 page, 16 MiB + 1 page} x all 8 options on its empty heap (between the current and the maximum heap size / above the maximum; only the out_of_memory / block_for_gc clauses apply there, with 'the heap' = the maximum). Monitors over the upcall log of each request: out_of_memory only if allow_oom_call; out_of_memory only after >= 1 completed collection within the request unless the request exceeds the heap size; a request that exceeds the heap size returns null without block_for_gc; null after out_of_memory; no block_for_gc if !at_safepoint; on the pre-states empty / full of garbage a request of <= heap/8 made at a safepoint succeeds without out_of_memory (it can be satisfied by collecting); allow_overcommit with size <= heap/4 (address space cannot be what runs out: MMTk reserves 2 x heap per space): no block_for_gc, no out_of_memory, and per (plan, full pre-state) at least one such request succeeds beyond the heap budget; a request never blocks for a collection more than 32 times (oom:hang:endless_collections: after the emergency collection the slow path must give up); the call returns (watchdog: 30 s of CPU time without progress inside the call; block_for_gc without a collection is a hang). distinct_nontrivial = executions in which a request could not be satisfied from the current heap (it polled for a collection, blocked, failed or over-committed)";
 
 pub fn owns(sig: &str) -> bool {
     sig.starts_with("oom:")
@@ -47,7 +47,12 @@ const PAGE: usize = 4096;
 const MIB: usize = 1 << 20;
 /// never-reclaimed bytes a process may accumulate before it is replaced by a fresh one
 const IMMORTAL_BUDGET: usize = 2 * MIB;
-const PRE_NAMES: [&str; 3] = ["empty", "full_of_garbage", "full_of_live_data"];
+const PRE_NAMES: [&str; 4] = ["empty", "full_of_garbage", "full_of_live_data", "empty_dynamic_heap"];
+/// Job 3: the empty heap of a process booted with `gc_trigger=DynamicHeapSize:DYN_MIN,DYN_MAX`
+/// (the heap starts at DYN_MIN and may grow to DYN_MAX), requests between the current and the
+/// maximum heap size: "larger than the maximum heap" must mean the maximum, not the current size.
+const DYN_MIN: usize = 4 << 20;
+const DYN_MAX: usize = 16 << 20;
 
 #[derive(Clone, Copy, Debug, PartialEq, Eq)]
 struct Req {
@@ -136,9 +141,14 @@ fn requests(plan: &str) -> Vec<Req> {
 
 fn prestates(plan: &str) -> Vec<usize> {
     if plan == "NoGC" {
+        // (NoGC replaces a dynamic heap by a fixed one)
         vec![0]
-    } else {
+    } else if plan == "ConcurrentImmix" {
+        // (with a growing heap its concurrent cycles race with the retrying request: the number of
+        // pauses one request waits for depends on timing, 2 to 90 observed)
         vec![0, 1, 2]
+    } else {
+        vec![0, 1, 2, 3]
     }
 }
 
@@ -148,6 +158,17 @@ fn prestates(plan: &str) -> Vec<usize> {
 const CORE_OPTS: [u8; 4] = [0b010, 0b110, 0b100, 0b111];
 
 fn cases(plan: &str, pre: usize, tier: Tier) -> Vec<Vec<Req>> {
+    if pre == 3 {
+        // above the initial (and, on an empty heap, the current) heap size but within the
+        // maximum; just below the maximum; above the maximum
+        let mut out = vec![];
+        for size in [DYN_MIN + MIB, 3 * DYN_MAX / 4, DYN_MAX - PAGE, DYN_MAX + PAGE] {
+            for opts in 0..8u8 {
+                out.push(vec![Req { sem: Sem::Los, size, opts }]);
+            }
+        }
+        return out;
+    }
     let rs = requests(plan);
     let quick = tier == Tier::Quick;
     // quick: on the heap full of live data (the most expensive pre-state) the 4 core option combinations
@@ -233,6 +254,11 @@ fn quiesce(w: &World) {
 struct Ctx {
     w: World,
     plan: String,
+    /// the maximum heap size of this process (HEAP, or DYN_MAX in the dynamic-heap job)
+    heap_max: usize,
+    dynamic: bool,
+    requests_above_current_heap: u64,
+    max_blocks_per_request: u64,
     /// reserved pages of the collected, empty heap: at the first case of the process / now
     boot_floor: Option<usize>,
     floor: usize,
@@ -339,6 +365,9 @@ impl Ctx {
         self.case_immortal_before = self.case_immortal;
         let mu = requester();
         let reserved_before = self.reserved_pages();
+        if self.dynamic && r.size > mmtk::memory_manager::total_bytes(self.w.mmtk) && r.size <= self.heap_max {
+            self.requests_above_current_heap += 1;
+        }
         crate::props::c03::watchdog_strict(true);
         let res = catch(|| mmtk::memory_manager::alloc_with_options(mu, r.size, 8, 0, sem.to_mmtk(), r.options()));
         crate::props::c03::watchdog_strict(false);
@@ -387,6 +416,7 @@ impl Ctx {
         self.gcs_by_requests += (o.gcs_in_call + o.gcs_after_call) as u64;
         self.oom_calls += o.ooms as u64;
         self.blocks += o.blocks as u64;
+        self.max_blocks_per_request = self.max_blocks_per_request.max(o.blocks as u64);
         if o.null {
             self.nulls += 1;
         }
@@ -399,7 +429,7 @@ impl Ctx {
                 self.case_immortal += r.size;
             }
             let o2 = r.options();
-            if o2.allow_overcommit && reserved_after > HEAP / PAGE && reserved_after > reserved_before {
+            if o2.allow_overcommit && reserved_after > self.heap_max / PAGE && reserved_after > reserved_before {
                 self.overcommit_beyond_heap += 1;
                 o.beyond_heap = true;
             }
@@ -418,14 +448,15 @@ impl Ctx {
     /// The monitors.  Returns (signature class, message) of every rule broken.
     fn judge(&mut self, r: &Req, o: &Obs, pre: usize) -> Vec<(String, String)> {
         let opt = r.options();
-        let exceeds_heap = (r.size >> 12) > HEAP / PAGE;
+        let heap = self.heap_max;
+        let exceeds_heap = (r.size >> 12) > heap / PAGE;
         let t = r.text();
         let mut v: Vec<(String, String)> = vec![];
         if o.ooms > 0 && !opt.allow_oom_call {
             v.push(("oom:oom_call_not_allowed".into(), format!("{}: out_of_memory was called {} time(s) although allow_oom_call is false ({} collections completed within the request)", t, o.ooms, o.gcs_in_call)));
         }
         if o.ooms > 0 && !exceeds_heap && o.gcs_before_first_oom == 0 {
-            v.push(("oom:oom_before_any_collection".into(), format!("{}: out_of_memory was called before any collection was attempted for the request (size <= heap size {:#x})", t, HEAP)));
+            v.push(("oom:oom_before_any_collection".into(), format!("{}: out_of_memory was called before any collection was attempted for the request (size <= maximum heap size {:#x})", t, heap)));
         }
         if o.ooms > 0 && !o.null {
             v.push(("oom:nonnull_after_oom".into(), format!("{}: out_of_memory was called and the call then returned a non-null address", t)));
@@ -436,12 +467,12 @@ impl Ctx {
         if exceeds_heap {
             self.immediate_failures += 1;
             if !o.null {
-                v.push(("oom:larger_than_heap_succeeded".into(), format!("{}: a request larger than the maximum heap ({:#x}) returned a non-null address", t, HEAP)));
+                v.push(("oom:larger_than_heap_succeeded".into(), format!("{}: a request larger than the maximum heap ({:#x}) returned a non-null address", t, heap)));
             }
             if o.blocks > 0 || o.gcs_in_call > 0 {
-                v.push(("oom:larger_than_heap_not_immediate".into(), format!("{}: a request larger than the maximum heap ({:#x}) must fail immediately, but block_for_gc was called {} time(s) and {} collection(s) ran within the request", t, HEAP, o.blocks, o.gcs_in_call)));
+                v.push(("oom:larger_than_heap_not_immediate".into(), format!("{}: a request larger than the maximum heap ({:#x}) must fail immediately, but block_for_gc was called {} time(s) and {} collection(s) ran within the request", t, heap, o.blocks, o.gcs_in_call)));
             }
-        } else if opt.allow_overcommit && r.size <= HEAP / 4 {
+        } else if opt.allow_overcommit && r.size <= HEAP / 4 && !self.dynamic {
             // (MMTk reserves 2 x heap of address space per space: a request of up to a quarter
             // of the heap always finds address space, so nothing but the heap budget is in its way)
             if o.blocks > 0 {
@@ -454,7 +485,7 @@ impl Ctx {
         // "cannot be satisfied": in a heap that holds nothing but garbage a collection frees
         // everything, so a request of at most an eighth of the heap made at a safepoint can be
         // satisfied (unless never-reclaimed allocations of this process have used up the heap)
-        if pre < 2 && opt.at_safepoint && r.size <= HEAP / 8 && self.lost_bytes() + self.case_immortal_before + r.size <= 3 * MIB && (o.null || o.ooms > 0) {
+        if pre < 2 && !self.dynamic && opt.at_safepoint && r.size <= HEAP / 8 && self.lost_bytes() + self.case_immortal_before + r.size <= 3 * MIB && (o.null || o.ooms > 0) {
             v.push(("oom:failed_although_satisfiable".into(), format!("{}: the heap holds only garbage, yet the request returned {} after {} out_of_memory call(s), {} block_for_gc call(s) and {} collection(s) within the request", t, if o.null { "null" } else { "an address" }, o.ooms, o.blocks, o.gcs_in_call)));
         }
         if o.null && opt.at_safepoint && opt.allow_oom_call && o.ooms == 0 {
@@ -492,9 +523,13 @@ pub fn child(args: &[String]) {
     crate::props::c03::start_watchdog();
     let mut cfg = BootCfg::new(&plan);
     cfg.heap_bytes = HEAP;
+    if pre == 3 {
+        cfg.heap_bytes = DYN_MAX;
+        cfg.options.push(("gc_trigger".to_string(), format!("DynamicHeapSize:{},{}", DYN_MIN, DYN_MAX)));
+    }
     let mut w = World::boot(cfg);
     w.monitor_c11 = false;
-    let mut c = Ctx { w, plan: plan.clone(), boot_floor: None, floor: 0, case_immortal: 0, case_immortal_before: 0, immortal_used: 0, requests_made: 0, gcs_by_requests: 0, oom_calls: 0, blocks: 0, nulls: 0, overcommit_beyond_heap: 0, overcommit_null: 0, immediate_failures: 0, null_without_oom_call_at_safepoint: 0, fill_objects: 0 };
+    let mut c = Ctx { w, plan: plan.clone(), heap_max: if pre == 3 { DYN_MAX } else { HEAP }, dynamic: pre == 3, requests_above_current_heap: 0, max_blocks_per_request: 0, boot_floor: None, floor: 0, case_immortal: 0, case_immortal_before: 0, immortal_used: 0, requests_made: 0, gcs_by_requests: 0, oom_calls: 0, blocks: 0, nulls: 0, overcommit_beyond_heap: 0, overcommit_null: 0, immediate_failures: 0, null_without_oom_call_at_safepoint: 0, fill_objects: 0 };
     let all = cases(&plan, pre, tier);
     let (list, first_ordinal): (Vec<Vec<Req>>, usize) = if mode == "replay" {
         let case: Value = serde_json::from_str(&args[5]).unwrap_or(Value::Null);
@@ -633,6 +668,8 @@ pub fn child(args: &[String]) {
     sub.add("objects_allocated_to_fill_heaps", c.fill_objects);
     sub.add("collections", c.w.stats.gcs);
     sub.add("processes", 1);
+    sub.set("max_block_for_gc_upcalls_of_one_request", c.max_blocks_per_request);
+    sub.add("requests_between_current_and_maximum_heap_size", c.requests_above_current_heap);
     sub.add("cases_skipped_after_hang_of_same_request_class", skipped);
     sub.set("max_depth", 2u64);
     let mut out = sub.to_child_json();
@@ -674,7 +711,13 @@ fn absorb_crash(run: &mut Run, name: &str, r: &Value) -> Option<(usize, String)>
     if detail.starts_with("HANG") && phase == "request" {
         let k = case["request_running"].as_u64().unwrap_or(0) as usize;
         let r = Req::from_json(&case["requests"][k]);
-        let class = if detail.contains("inside block_for_gc: true, collection pending or running: false") { "oom:hang:block_for_gc_without_collection" } else { "oom:hang" };
+        let class = if detail.contains("endless_collections") {
+            "oom:hang:endless_collections"
+        } else if detail.contains("inside block_for_gc: true, collection pending or running: false") {
+            "oom:hang:block_for_gc_without_collection"
+        } else {
+            "oom:hang"
+        };
         let ord = case["ordinal"].as_u64().unwrap_or(0) as usize;
         run.violation(format!("{}:{}", class, plan), format!("{} case #{} request {}: {} did not return: {}", name, case["ordinal"], k + 1, r.text(), detail), case);
         return Some((ord, hang_class(&r)));
@@ -751,7 +794,7 @@ fn run_job(plan: &str, pre: usize, tier: Tier, timeout: u64) -> (Run, bool) {
         }
         from = next;
     }
-    if complete && pre > 0 && beyond == 0 {
+    if complete && (pre == 1 || pre == 2) && beyond == 0 {
         acc.violation(format!("oom:overcommit_never_exceeds_heap:{}", plan), format!("{}: no allow_overcommit request ever succeeded beyond the heap budget", name), json!({"plan": plan, "tier": tier.name(), "pre": pre, "ordinal": 0, "requests": [], "aggregate": true}));
     }
     (acc, complete)
@@ -759,7 +802,7 @@ fn run_job(plan: &str, pre: usize, tier: Tier, timeout: u64) -> (Run, bool) {
 
 pub fn run(run: &mut Run) {
     let mut jobs: Vec<(String, usize)> = vec![];
-    for pre in [1usize, 0, 2] {
+    for pre in [1usize, 0, 2, 3] {
         for p in crate::props::c03::selected_plans() {
             if prestates(p).contains(&pre) {
                 jobs.push((p.to_string(), pre));
@@ -811,7 +854,7 @@ pub fn replay(case: &Value, run: &mut Run) {
     let plan = case["plan"].as_str().unwrap_or("SemiSpace").to_string();
     let tier = case["tier"].as_str().unwrap_or(run.tier.name()).to_string();
     let pre = case["pre"].as_u64().unwrap_or(0) as usize;
-    let name = format!("{}/{}", plan, PRE_NAMES[pre.min(2)]);
+    let name = format!("{}/{}", plan, PRE_NAMES[pre.min(3)]);
     let base = vec!["--child".to_string(), "C10".to_string(), plan.clone(), tier, "replay".to_string(), pre.to_string(), "0".to_string(), serde_json::to_string(case).unwrap()];
     let mut go = |args: Vec<String>, run: &mut Run| {
         let r = run_children(vec![args], 1, 3000).pop().unwrap();
